@@ -231,6 +231,19 @@ PROPS = {
         level_note='No obligation proved; the induction on len(left) and the permutation loop invariant of DESIGN 6/C10 are not '
                    'discharged in this build.',
         technique='bounded run-time contracts with an independent wire-tracking oracle'),
+    'C17': dict(
+        title='Export to and import from pyzx graphs preserve the ZX diagram',
+        level='exploration',
+        vc=[], sym=[], rtc='C17',
+        level_text='Bounded stand-in (pyzx\'s tensor semantics is external, and the installed pyzx 0.10 no longer has the API the '
+                   'pinned discopy calls, so the real to_pyzx / from_pyzx run against an in-process adapter over the real pyzx '
+                   'graph): every ZX diagram with <= 2 (thorough 3) boxes over 16 generators with a simple underlying graph is '
+                   'exported, pyzx.tensorfy (scalar preserved) of the real graph is compared with the numeric standard '
+                   'interpretation of the diagram, the graph is imported back and compared up to the scalar boxes; simple '
+                   'graphs with 1-2 spiders, boundaries attached in every way, both edge types and three vertex numberings are '
+                   'imported and compared with pyzx\'s matrix up to a scalar; stray / shared boundaries and non-ZX boxes refused.',
+        level_note='No obligation proved. Trusted: rtc/adapters.py (assumed model of the old pyzx API), pyzx.tensorfy, rtc/zxsim.py.',
+        technique='bounded run-time contracts through an adapter, against pyzx\'s own tensor semantics'),
     'C18': dict(
         title='Grammar front-ends only produce well-typed, grammatical derivations',
         level='exploration',
